@@ -8,7 +8,14 @@ Tie: random histories over {ctor, birth_range=, pers_range=, pixel_size=, fit} o
 same floats (driver ops `img.hist`, `img.from`).
 [T]: the invariant itself is evaluated on the real code after every operation of every history and on a
 float-stress stream (0.3/0.1, 0.7/0.1, 1/3, n*ps for n <= 400, 37.3 with 0.2 ...) — rounding defects are
-invisible to exact-arithmetic theorems and show only there.
+invisible to exact-arithmetic theorems and show only there.  The invariant's verdict uses the public attributes
+and `transform` only: the imagers are built with unit weight and a Gaussian kernel of 0.002 pixels, and after
+every operation one-point diagrams 0.02 pixels inside the corner pixels (and a random one) of the REPORTED
+geometry must put their mass into exactly that pixel of the image ("positions where a single narrow-kernel point
+lands": a transform that works from a stale or mis-stepped mesh while the attributes are right shows here).
+Correspondence only (never a claimed failing input): how the padding is distributed, the range of the axis an
+assignment did not touch, the private meshes `_bpnts`/`_ppnts`, what `transform([])` returns, the constructor's
+defaults (read from the class under test: signature, else the `if x is None: x = ...` literals of its body).
 """
 import math
 from fractions import Fraction
@@ -25,7 +32,9 @@ RULE = ("histories generated from one PRNG: constructor (defaults / explicit ran
         "and ranges n*ps or two-decimal), decimal at large offsets (|b0| from 1e3 to 1e6 with the same pixel sizes), dyadic (exact "
         "float arithmetic, whole history scaled by 2^-20..2^20), uniform, and integer-typed (Python ints for ranges and pixel "
         "size, int64 arrays for the diagrams); after every operation transform is called on one diagram, an empty (0,2) array, "
-        "[], a collection and a collection with an empty member, and every returned image must have the reported resolution; "
+        "[], a collection and a collection with an empty member, and every returned image must have the reported resolution; then "
+        "six one-point diagrams (unit weight, kernel sd 0.002 pixels) 0.02 pixels inside the first / last pixel of each axis and a random "
+        "pixel of the reported geometry, each of which must land in that pixel of the image; "
         "ranges that are / are not multiples of the pixel size; a malformed stream (pixel_size 0, reversed ranges, fit on "
         "no data / an empty diagram); non-trivial = at least one operation after the constructor and some range that is not "
         "an exact multiple of the pixel size; distinct by digest of the history")
@@ -36,6 +45,11 @@ ASSUMPTIONS = [
     "1e-9 of an integer, either neighbouring pixel count is accepted (razor-edge rule, counted) and the comparison continues "
     "from the code's own state (`img.from`)",
     "np.linspace(a, b, n, endpoint=False) = a + i*(b-a)/n; in-place += broadcasting rule of numpy (both exercised on every case)",
+    "image[i][j] is the pixel [birth_range[0] + i*pixel_size, +pixel_size] x [pers_range[0] + j*pixel_size, +pixel_size] (C04's statement); "
+    "the probe resolves a displacement of the pixel grid of 0.02 pixels or more — a smaller deviation of the private meshes from the "
+    "reported geometry is reported as a correspondence break without a failing input",
+    "the statement fixes neither how the excess over a request is distributed, nor the range of the axis an assignment did not touch, nor "
+    "constructor defaults, nor the result of transform([]): differences from the model there are correspondence breaks only",
 ]
 TOL = 1e-9
 MAXV = 5
@@ -46,7 +60,62 @@ CORE_THEOREMS = ["PersimVerif.C12." + n for n in (
     "inv_reachable", "mesh_is_square", "covers_request", "covers_request_ctor", "covers_request_history", "shape_is_resolution",
     "reachable_image_shape", "reachable_image_shape_history")]
 
-DEFAULTS = {"birth_range": (0.0, 1.0), "pers_range": (0.0, 1.0), "pixel_size": 0.2}
+# the documented constructor defaults; used only if they cannot be read from the class under test (see `ctor_defaults`)
+DOC_DEFAULTS = {"birth_range": (0.0, 1.0), "pers_range": (0.0, 1.0), "pixel_size": 0.2}
+_DEFAULTS_CACHE = {}
+
+
+def ctor_defaults():
+    """what the constructor of the class UNDER TEST uses for an omitted birth_range / pers_range / pixel_size: the default in
+       its signature (inspect.signature) or, where that is None, the literal of `if <name> is None: <name> = <literal>` in its
+       body.  The statement does not mention defaults, so a changed default moves the 'request' of a default-constructed imager
+       (and what the model is fed) instead of being reported as 'exceeds the request'."""
+    if _DEFAULTS_CACHE:
+        return _DEFAULTS_CACHE
+    import inspect, ast, textwrap
+    out, how = {}, {}
+    init = PI().__init__
+    try:
+        sig = inspect.signature(init)
+    except (TypeError, ValueError):
+        sig = None
+    body = {}
+    try:
+        tree = ast.parse(textwrap.dedent(inspect.getsource(init)))
+        for node in ast.walk(tree):
+            if (isinstance(node, ast.If) and isinstance(node.test, ast.Compare) and isinstance(node.test.left, ast.Name)
+                    and len(node.test.ops) == 1 and isinstance(node.test.ops[0], ast.Is)
+                    and isinstance(node.test.comparators[0], ast.Constant) and node.test.comparators[0].value is None
+                    and len(node.body) == 1 and isinstance(node.body[0], ast.Assign) and len(node.body[0].targets) == 1
+                    and isinstance(node.body[0].targets[0], ast.Name) and node.body[0].targets[0].id == node.test.left.id):
+                try:
+                    body[node.test.left.id] = ast.literal_eval(node.body[0].value)
+                except (ValueError, SyntaxError):
+                    pass
+    except (OSError, TypeError, SyntaxError):
+        pass
+    for k, doc in DOC_DEFAULTS.items():
+        v = None
+        if sig is not None and k in sig.parameters and sig.parameters[k].default not in (None, inspect.Parameter.empty):
+            v, how[k] = sig.parameters[k].default, "signature"
+        elif k in body and body[k] is not None:
+            v, how[k] = body[k], "constructor body"
+        try:
+            v = float(v) if k == "pixel_size" else (float(v[0]), float(v[1]))
+        except (TypeError, ValueError, IndexError):
+            v, how[k] = doc, "documented default (not readable from the class)"
+        out[k] = v
+    _DEFAULTS_CACHE.update(out)
+    _DEFAULTS_CACHE["_how"] = how
+    return _DEFAULTS_CACHE
+
+
+class _Defaults:
+    def __getitem__(self, k):
+        return ctor_defaults()[k]
+
+
+DEFAULTS = _Defaults()
 ERRMAP = {  # model kind -> exception classes the code may raise for it
     "err:zeroPixel": {"ZeroDivisionError", "OverflowError", "ValueError"},
     "err:negCount": {"ValueError"},
@@ -66,7 +135,23 @@ def to_input(kind, data, dtype=float):
     return [np.array(d, dtype=dtype).reshape(-1, 2) for d in data]
 
 
-def construct(c):
+def unit_weight(b, p):
+    """every point weighs 1 (the default weight is the persistence, which is 0 or negative on part of the generated ranges)"""
+    return np.ones_like(np.asarray(b, dtype=float))
+
+
+def probe_sd(case):
+    """standard deviation of the probe kernel of a history: 0.002 x the smallest positive pixel size that occurs in it, so
+       that in every state a point 0.02 pixels inside a pixel has its whole mass (10 sd) in that pixel"""
+    c = case["ctor"]
+    pss = [DEFAULTS["pixel_size"] if c.get("pixel_size") is None else c["pixel_size"]] + [o[1] for o in case["ops"] if o[0] == "px"]
+    pss = [float(x) for x in pss if isinstance(x, (int, float)) and x > 0 and math.isfinite(x)]
+    return 0.002 * (min(pss) if pss else 1.0)
+
+
+def construct(c, sd=None):
+    """the imager under test.  With `sd`: unit weight and an isotropic Gaussian kernel of standard deviation `sd` (neither
+       touches the geometry), so that `transform` itself shows where a point lands (see `probe`)"""
     kw = {}
     if c.get("birth_range") is not None:
         kw["birth_range"] = tuple(c["birth_range"])
@@ -74,6 +159,8 @@ def construct(c):
         kw["pers_range"] = tuple(c["pers_range"])
     if c.get("pixel_size") is not None:
         kw["pixel_size"] = c["pixel_size"]
+    if sd is not None:
+        kw.update(weight=unit_weight, weight_params={}, kernel="gaussian", kernel_params={"sigma": float(sd) ** 2})
     return PI()(**kw)
 
 
@@ -93,6 +180,8 @@ def apply_op(obj, op):
 
 
 def mesh_summary(m, ps):
+    if m is None:                      # the imager has no such private attribute (renamed / restructured): nothing to read
+        return None
     m = np.asarray(m, dtype=float)
     if len(m) == 0:
         return [None, None, 0, 0.0]
@@ -101,12 +190,49 @@ def mesh_summary(m, ps):
 
 
 def snapshot(obj):
-    """the public geometry of the object, as plain floats/ints"""
+    """the public geometry of the object, as plain floats/ints, plus a summary of the PRIVATE corner meshes `_bpnts`/`_ppnts`
+       where they exist (the present code's realisation of the pixels; see `invariant` for how far they count)"""
     b, p = obj.birth_range, obj.pers_range
     r = obj.resolution
     return {"b0": float(b[0]), "b1": float(b[1]), "p0": float(p[0]), "p1": float(p[1]), "ps": float(obj.pixel_size),
             "w": float(obj.width), "h": float(obj.height), "rx": int(r[0]), "ry": int(r[1]),
-            "mb": mesh_summary(obj._bpnts, float(obj.pixel_size)), "mp": mesh_summary(obj._ppnts, float(obj.pixel_size))}
+            "mb": mesh_summary(getattr(obj, "_bpnts", None), float(obj.pixel_size)),
+            "mp": mesh_summary(getattr(obj, "_ppnts", None), float(obj.pixel_size))}
+
+
+def probe(obj, snap, sd, rnd):
+    """[anchor of the statement: 'positions where a single narrow-kernel point lands']  Through `transform` alone: a point
+       placed 0.02 pixels inside the pixel [i][j] of the REPORTED geometry (birth_range[0] + i*pixel_size ..., public attributes
+       only), with a kernel of 10 sd <= 0.02 pixels, must put its mass into image[i][j].  Probed: the first and the last
+       pixel of each axis at both of their inner corners (a mesh whose step is off accumulates its error towards the far
+       end) and one random pixel.  -> list of failures (empty = fine), or None when not probed (grid too large / degenerate)."""
+    rx, ry, ps = snap["rx"], snap["ry"], snap["ps"]
+    if sd is None or rx < 1 or ry < 1 or rx * ry > 250000 or not (ps > 0) or 10 * sd > 0.0201 * ps:
+        return None
+    lo, hi = 0.02, 0.98
+    cells = [(rx - 1, ry - 1, lo, lo), (rx - 1, ry - 1, hi, hi)]
+    if rx * ry <= 40000:                       # large grids: the far corner only (cost)
+        cells += [(0, 0, lo, lo), (rx - 1, 0, lo, hi), (0, ry - 1, hi, lo),
+                  (rnd.randrange(rx), rnd.randrange(ry), rnd.choice([lo, hi]), rnd.choice([lo, hi]))]
+    pts = [np.array([[snap["b0"] + (i + fx) * ps, snap["p0"] + (j + fy) * ps]]) for i, j, fx, fy in cells]
+    st, v, _ = common.call(obj.transform, pts, skew=False)
+    if st == "err":
+        return ["transform raised %s on one-point diagrams inside the reported ranges" % v]
+    if not isinstance(v, (list, tuple)) or len(v) != len(pts):
+        return ["transform of %d one-point diagrams did not give %d images" % (len(pts), len(pts))]
+    bad = []
+    for (i, j, fx, fy), pt, img in zip(cells, pts, v):
+        a = np.asarray(img, dtype=float)
+        if a.shape != (rx, ry):
+            continue                                   # reported by the shape clause
+        if not (a[i, j] > 0.9):
+            k = np.unravel_index(int(np.argmax(a)), a.shape) if a.size and np.isfinite(a).any() else None
+            bad.append("a unit-weight point at (%r, %r), %.2f/%.2f of a pixel inside pixel [%d][%d] of the reported geometry (kernel sd "
+                       "%.3g = %.4f pixels), puts %.3g of its mass into image[%d][%d]; the mass is in image%s"
+                       % (float(pt[0, 0]), float(pt[0, 1]), fx, fy, i, j, sd, sd / ps, float(a[i, j]), i, j,
+                          "[%d][%d]" % (int(k[0]), int(k[1])) if k is not None else " nowhere"))
+            break
+    return bad
 
 
 def real_shape(obj):
@@ -141,7 +267,9 @@ def extra_shapes(obj):
         if st == "err":
             out[name] = "err:" + v
         elif is_coll:
-            out[name] = [[int(x) for x in np.shape(a)] for a in v] if isinstance(v, list) and len(v) == len(arg) else "not a list of %d images" % len(arg)
+            out[name] = [[int(x) for x in np.shape(a)] for a in v] if isinstance(v, (list, tuple)) and len(v) == len(arg) else "not %d images" % len(arg)
+        elif name == "empty_list" and isinstance(v, (list, tuple)) and len(v) == 0:
+            out[name] = [0]                     # an empty sequence of images for an empty collection (see `invariant`)
         else:
             out[name] = [int(x) for x in np.shape(v)] if isinstance(v, np.ndarray) else "not an array"
     return out
@@ -176,9 +304,15 @@ def request_of(step, pre, c):
     return (h[0], h[1]), (h[2], h[3])
 
 
-def invariant(snap, req, pre, shape, extra=None):
-    """the property on the real code, after one valid operation.  Returns a list of failed clauses."""
+def invariant(snap, req, pre, shape, extra=None, probed=None, soft=None):
+    """the property on the real code, after one valid operation.  Returns the list of failed clauses OF THE STATEMENT.
+       What the statement does not say is appended to `soft` (reported as a correspondence break, never as a failing input):
+       how the excess over the request is distributed (the present code splits it evenly), what happens to the range of the
+       axis an assignment did not touch, and the private corner meshes `_bpnts` / `_ppnts` — 'pixels are squares of the
+       configured size' is decided through `transform` (`probed`: where narrow-kernel points land), the meshes are the present
+       code's realisation of it and are compared with the model in the correspondence."""
     bad = []
+    soft = soft if soft is not None else []
     ps = snap["ps"]
     # tolerances: relative to the EXTENTS (widths, pixel size) plus the rounding of the coordinates themselves (1e-12 of
     # their magnitude, i.e. ~1e4 ulp) - not 1e-9 of the offset, which at |b0| ~ 1e6 would be 1% of a 0.1 pixel
@@ -196,13 +330,15 @@ def invariant(snap, req, pre, shape, extra=None):
         if abs((snap[hi] - snap[lo]) - snap[ext]) > tol:
             bad.append("%s: range width %r != extent attribute %r" % (ax, snap[hi] - snap[lo], snap[ext]))
         m = snap[mesh]
-        if m[2] != cnt + 1:
-            bad.append("%s: %d mesh points for resolution %d" % (ax, m[2], cnt))
+        if m is None:
+            soft.append(("private_mesh", "%s: the imager has no private mesh attribute to read" % ax))
+        elif m[2] != cnt + 1:
+            soft.append(("private_mesh", "%s: %d private mesh points for resolution %d" % (ax, m[2], cnt)))
         elif m[2] >= 1:
             if abs(m[0] - snap[lo]) > tol or abs(m[1] - snap[hi]) > tol:
-                bad.append("%s: mesh runs %r..%r, range is %r..%r" % (ax, m[0], m[1], snap[lo], snap[hi]))
+                soft.append(("private_mesh", "%s: private mesh runs %r..%r, range is %r..%r" % (ax, m[0], m[1], snap[lo], snap[hi])))
             if m[3] > steptol:
-                bad.append("%s: pixels are not squares of the configured size: |mesh step - pixel_size| = %.3g (pixel_size %r)" % (ax, m[3], ps))
+                soft.append(("private_mesh", "%s: private mesh: |mesh step - pixel_size| = %.3g (pixel_size %r)" % (ax, m[3], ps)))
         if r is not None:
             if snap[lo] > r[0] + tol or snap[hi] < r[1] - tol:
                 bad.append("%s: range %r..%r does not contain the requested %r..%r" % (ax, snap[lo], snap[hi], r[0], r[1]))
@@ -210,16 +346,24 @@ def invariant(snap, req, pre, shape, extra=None):
             if exc > ps + tol:
                 bad.append("%s: range exceeds the request by %r > one pixel %r" % (ax, exc, ps))
             if abs((r[0] - snap[lo]) - (snap[hi] - r[1])) > 2 * tol:
-                bad.append("%s: padding is not split evenly (%r below, %r above)" % (ax, r[0] - snap[lo], snap[hi] - r[1]))
+                soft.append(("padding_split", "%s: padding is not split evenly (%r below, %r above)" % (ax, r[0] - snap[lo], snap[hi] - r[1])))
         elif pre is not None:
             if abs(snap[lo] - pre[lo]) > tol or abs(snap[hi] - pre[hi]) > tol:
-                bad.append("%s: range moved (%r..%r -> %r..%r) though the operation did not touch it" % (ax, pre[lo], pre[hi], snap[lo], snap[hi]))
+                soft.append(("untouched_axis", "%s: range moved (%r..%r -> %r..%r) though the operation did not touch it" % (ax, pre[lo], pre[hi], snap[lo], snap[hi])))
     if shape is not None and shape != [snap["rx"], snap["ry"]]:
         bad.append("transform output has shape %r, reported resolution is %r" % (shape, (snap["rx"], snap["ry"])))
     for name, sh in (extra or {}).items():
+        if name == "empty_list" and sh == [0]:
+            # `transform([])` — an empty COLLECTION — may as well give an empty list: the statement speaks of images produced
+            soft.append(("empty_collection", "transform([]) returns an empty sequence, the model the zero image"))
+            continue
         shapes = sh if (isinstance(sh, list) and sh and isinstance(sh[0], list)) else [sh]
         if any(x != [snap["rx"], snap["ry"]] for x in shapes):
             bad.append("transform(%s) returns %r, reported resolution is %r" % (name.replace("_", " "), sh, (snap["rx"], snap["ry"])))
+    if probed:
+        mesh_notes = [t for k, t in soft if k == "private_mesh"]
+        bad.append("pixels are not the squares of the configured size that the attributes report: " + probed[0]
+                   + (" [private meshes: %s]" % "; ".join(mesh_notes[:2]) if mesh_notes else ""))
     return bad
 
 
@@ -239,18 +383,21 @@ def op_valid(step, pre, c):
 
 
 def run_real(case, with_shape=True):
-    """run the history on the real code.  Returns the per-step records: {'snap','pre','shape','inv'} or {'err': kind}"""
+    """run the history on the real code.  Returns the per-step records: {'snap','pre','shape','inv','soft'} or {'err': kind}"""
+    import random
     c, ops = case["ctor"], case["ops"]
     recs = []
     valid = True
     obj = None
     steps = [["ctor"]] + [list(o) for o in ops]
     pre = None
+    sd = probe_sd(case) if with_shape else None
+    rnd = random.Random(len(ops))                  # the random probe pixel: a function of the case, so a replay probes the same
     for st in steps:
         valid = valid and op_valid(st, pre, c)
         with np.errstate(all="ignore"):
             if st[0] == "ctor":
-                res = common.call(construct, c)
+                res = common.call(construct, c, sd)
                 if res[0] == "ok":
                     obj = res[1]
             else:
@@ -261,8 +408,12 @@ def run_real(case, with_shape=True):
         snap = snapshot(obj)
         shape = real_shape(obj) if with_shape else None
         extra = extra_shapes(obj) if with_shape and valid else {}
-        inv = invariant(snap, request_of(st, pre, c), pre, shape, extra) if valid else []
-        recs.append({"snap": snap, "pre": pre, "shape": shape, "extra_shapes": extra, "inv": inv, "valid": valid})
+        with np.errstate(all="ignore"):
+            probed = probe(obj, snap, sd, rnd) if with_shape and valid else None
+        soft = []
+        inv = invariant(snap, request_of(st, pre, c), pre, shape, extra, probed, soft) if valid else []
+        recs.append({"snap": snap, "pre": pre, "shape": shape, "extra_shapes": extra, "probed": probed, "inv": inv, "soft": soft,
+                     "valid": valid})
         pre = snap
     return recs
 
@@ -349,6 +500,8 @@ def compare_entry(ctx, ent, rec, step, case_ctor):
         if abs(float(vals[k]) - snap[k]) > tol:
             return "bad", "%s: code %r, model %r" % (k, snap[k], float(vals[k]))
     for name, mm, cm in (("_bpnts", ent[9], snap["mb"]), ("_ppnts", ent[10], snap["mp"])):
+        if cm is None:
+            return "bad", "the imager has no private mesh %s to compare with the model's" % name
         if int(mm[2]) != cm[2]:
             return "bad", "%s has %d points, model %d" % (name, cm[2], int(mm[2]))
         if cm[2] >= 1 and (abs(float(mm[0]) - cm[0]) > tol or abs(float(mm[1]) - cm[1]) > tol):
@@ -596,10 +749,20 @@ def nontrivial(case, recs):
     return False
 
 
+SOFT_SEEN = {}
+
+
 def report_inv(ctx, case, recs, stream):
-    """[T] the invariant on the real code; a failed clause is a found failing input"""
+    """[T] the invariant on the real code; a failed clause is a found failing input.  `soft` notes (what the statement leaves
+       open, see `invariant`) are collected — first occurrence per kind — and reported by `run` as correspondence breaks"""
     ok = True
     for k, r in enumerate(recs):
+        if "snap" in r and r.get("valid"):
+            ctx.count("states_probed_through_transform" if r.get("probed") is not None else "states_not_probed")
+        for kind, text in r.get("soft", ()):
+            ctx.count("soft:" + kind)
+            if kind not in SOFT_SEEN:
+                SOFT_SEEN[kind] = (text, {"ctor": case["ctor"], "ops": case["ops"][:k]}, k, stream)
         if r.get("inv"):
             ok = False
             cut = {"ctor": case["ctor"], "ops": case["ops"][:k]}
@@ -626,7 +789,7 @@ def reproducer(case):
         else:
             arg = "np.array(%r)" % (o[3],) if o[2] == "s" else "[np.array(d) for d in %r]" % (o[3],)
             lines.append("p.fit(%s, skew=%r)" % (arg, o[1]))
-    lines.append("print(p.birth_range, p.pers_range, p.pixel_size, p.width, p.height, p.resolution, np.diff(p._bpnts)[:2], np.diff(p._ppnts)[:2])")
+    lines.append("print(p.birth_range, p.pers_range, p.pixel_size, p.width, p.height, p.resolution, np.diff(getattr(p, '_bpnts', [0, 0]))[:2], np.diff(getattr(p, '_ppnts', [0, 0]))[:2])")
     return "; ".join(lines)
 
 
@@ -720,6 +883,27 @@ def run(ctx):
         if not report_inv(ctx, case, recs, "float_stress_invariant") and len(ctx.violations) >= MAXV:
             break
     found = any(f for _, f in ctx.violations)
+    # ---- what the statement leaves open (padding distribution, the untouched axis, private meshes, transform([]), defaults):
+    # a difference from the model there is a correspondence break, reported once per kind, never a failing input
+    SOFT_TEXT = {"padding_split": "the excess over the request is not split evenly between the two ends (the model pads symmetrically; the "
+                                  "statement only bounds the excess by one pixel)",
+                 "untouched_axis": "an assignment to one axis moved the range of the other (the model leaves it; the statement speaks only "
+                                   "of what the last operation asked for)",
+                 "private_mesh": "the private corner meshes differ from the model's although points land in the pixels the public "
+                                 "attributes describe (or the grid was too large to probe)",
+                 "empty_collection": "transform([]) gives an empty sequence where the model gives the zero image",
+                 "ctor_defaults": "the constructor's defaults differ from the documented (0,1), (0,1), 0.2"}
+    d = ctor_defaults()
+    ctx.extra["constructor_defaults"] = {"values": {k: d[k] for k in DOC_DEFAULTS}, "read_from": d["_how"]}
+    if any(tuple(np.atleast_1d(d[k])) != tuple(np.atleast_1d(DOC_DEFAULTS[k])) for k in DOC_DEFAULTS):
+        SOFT_SEEN.setdefault("ctor_defaults", ("defaults %r" % {k: d[k] for k in DOC_DEFAULTS},
+                                               {"ctor": {"birth_range": None, "pers_range": None, "pixel_size": None}, "ops": []}, 0, "defaults"))
+    for kind, (text, cut, k, stream) in sorted(SOFT_SEEN.items()):
+        if any(r.get("inv") for r in run_real(cut)[k:k + 1]):
+            continue                            # this very state is already reported with a failing input
+        ctx.violation("correspondence only — %s: %s; every clause of the statement holds on this history"
+                      % (SOFT_TEXT.get(kind, kind), text),
+                      {"correspondence": "soft:" + kind, "history": cut, "stream": stream}, found_input=False, reproducer=reproducer(cut))
     # ---- a broken correspondence is a violation only through a failing input; none found -> say so
     for i, k, text in dis[:3]:
         case = cases[i]
@@ -738,7 +922,7 @@ def replay(ctx, rep):
     recs = run_real(case)
     ok = True
     for k, r in enumerate(recs):
-        print("step %d:" % k, {kk: r[kk] for kk in ("snap", "shape", "inv", "err") if kk in r})
+        print("step %d:" % k, {kk: r[kk] for kk in ("snap", "shape", "probed", "inv", "soft", "err") if kk in r})
         if r.get("inv"):
             ok = False
     try:
@@ -755,7 +939,7 @@ MANIFEST = {
             "birth_range/pers_range/pixel_size assignments and fits (induction over the operation list) no operation raises and width = "
             "resolution*pixel_size = range width on both axes with resolution >= 1; the mesh consists of resolution+1 points exactly "
             "pixel_size apart from range start to range end; every operation's request (assigned range, every fitted point, previous "
-            "ranges) is covered with less than one pixel of excess split evenly; images have the reported resolution for one diagram, a "
+            "ranges) is covered with less than one pixel of excess (split evenly in the model; the check's verdict demands only the bound); images have the reported resolution for one diagram, a "
             "collection, a collection with empty members and an empty input; composed with C04: the meshes of every reachable state "
             "satisfy the shape condition of C04's model of _transform, which therefore returns an image of exactly the reported "
             "resolution whose pixel [i][j] is the weighted kernel mass of the square [b0+i*ps, b0+(i+1)*ps] x [p0+j*ps, p0+(j+1)*ps]; the "
@@ -764,8 +948,9 @@ MANIFEST = {
             "attribute.",
     "note": "Trusted: Lean kernel + Mathlib, axioms propext/Classical.choice/Quot.sound; the correspondence harness; numpy's linspace and "
             "in-place broadcasting as modelled. Theorems are exact-arithmetic: float rounding (where the repaired int(width/ps) defect "
-            "lived) is covered only by the [T] streams, which evaluate the invariant on the real code after every operation (including the "
-            "shapes of transform on an empty array, [], a collection and a collection with an empty member) and on float-stress inputs "
+            "lived) is covered only by the [T] streams, which evaluate the invariant on the real code after every operation (public "
+            "attributes; the shapes of transform on an empty array, [], a collection and a collection with an empty member; where "
+            "narrow-kernel points placed by the reported geometry land in the image) and on float-stress inputs "
             "(n*ps for n <= 400, 0.3/0.1, 0.7/0.1, 1/3, 37.3 with 0.2; decimal histories at offsets up to 1e6; integer-typed arguments). "
             "Razor-edge rule: where the code's float quotient extent/pixel_size and the exact quotient of the same floats fall on different "
             "sides of an integer (within 1e-9), code and exact model take neighbouring pixel counts; either is accepted and the comparison "
